@@ -45,7 +45,7 @@ PROPS = {
         kani=_gf255_k(["k_add", "k_sub", "k_neg", "k_half"]),
         cases=_f(["add", "sub", "neg", "half", "mul", "mul2", "mul4", "mul8", "mul16", "mul32", "mulk", "mul_small", "smallmul", "mul_b127",
                   "square", "xsquare", "bits"]),
-        level_text="GF255<MQ> (64-bit limbs; instantiated as GF25519, GF255e, GF255s): add, sub, neg, half, mul2..mul32, the full 4x4-limb multiplication and the dedicated squaring with their two-step pseudo-Mersenne reduction, repeated squaring (loop invariant, any n) and every +,-,* operator impl are proved by Verus against fe(result) == op(fe(args)) mod 2^255-MQ for every limb pattern and every admissible MQ; add/sub/neg/half additionally by Kani on the full 2^512 input domain. ModInt256<M0..M3> (all scalar fields and the P-256 field; any odd modulus with a non-zero top limb): set_add (both code paths), set_sub, set_neg, set_mul2/3/4/8/16/32 proved by Verus on the internal (Montgomery) representation with the invariant value < m. make_m0i (the -1/m0 mod 2^64 Newton iteration behind every Montgomery reduction) proved for every odd m0. GFsecp256k1::set_mul (product and the two-fold 2^32+977 reduction), set_add, set_sub, set_neg proved. GF448: set_add, set_sub, set_neg proved (fe(result) == fe(a) op fe(b) mod 2^448-2^224-1 for every 448-bit limb pattern; the dropped final carries / borrows are shown to be zero). ModInt256 Montgomery reduction (set_montyred) Montgomery multiplication (set_mul, all three code paths) and squaring (set_square, both code paths) - and halving (set_half: 2*r == a or a + m, r < m, given HMP1 == (m+1)/2) - multiplication and squaring as one unit per code path, splitting the contract by the path condition on the modulus; the other branches are proved unreachable in each: result < m and result*2^256 == a*b (mod m), for every modulus, given the M0I property that make_m0i is proved to establish. The other field types and backends: executable-postcondition stand-in only.",
+        level_text="GF255<MQ> (64-bit limbs; instantiated as GF25519, GF255e, GF255s): add, sub, neg, half, mul2..mul32, the full 4x4-limb multiplication and the dedicated squaring with their two-step pseudo-Mersenne reduction, repeated squaring (loop invariant, any n) and every +,-,* operator impl are proved by Verus against fe(result) == op(fe(args)) mod 2^255-MQ for every limb pattern and every admissible MQ; add/sub/neg/half additionally by Kani on the full 2^512 input domain. ModInt256<M0..M3> (all scalar fields and the P-256 field; any odd modulus with a non-zero top limb): set_add (both code paths), set_sub, set_neg, set_mul2/3/4/8/16/32 proved by Verus on the internal (Montgomery) representation with the invariant value < m. make_m0i (the -1/m0 mod 2^64 Newton iteration behind every Montgomery reduction) proved for every odd m0. GFsecp256k1::set_mul and set_square (product and the two-fold 2^32+977 reduction), set_add, set_sub, set_neg proved. GF448: set_add, set_sub, set_neg proved (fe(result) == fe(a) op fe(b) mod 2^448-2^224-1 for every 448-bit limb pattern; the dropped final carries / borrows are shown to be zero). ModInt256 Montgomery reduction (set_montyred) Montgomery multiplication (set_mul, all three code paths) and squaring (set_square, both code paths) - and halving (set_half: 2*r == a or a + m, r < m, given HMP1 == (m+1)/2) - multiplication and squaring as one unit per code path, splitting the contract by the path condition on the modulus; the other branches are proved unreachable in each: result < m and result*2^256 == a*b (mod m), for every modulus, given the M0I property that make_m0i is proved to establish. The other field types and backends: executable-postcondition stand-in only.",
         assumptions=["ModInt256::M0I is an opaque constant in the Montgomery units; its defining property (M0*M0I == -1 mod 2^64) is a precondition of set_montyred/set_mul and is what make_m0i(M0), which the source assigns to M0I, is proved to return"],
         level_note="Trusted: Verus+Z3, Kani/CBMC, the x86 add-with-carry intrinsics (assumed to behave as the portable arms that are proved), extraction transformations listed in evidence. Not reached by any contract: ModInt256, GF448, GFsecp256k1, gfgen, binary fields, 32-bit/51-bit/clmul backends.",
         not_reached=["ModInt256 set_montylin / set_div (stand-in only); make_hmp1 is a declared contract (its nested helper fn cannot be given a contract by the weaver)", "GF448", "GFsecp256k1", "define_gfgen! (ed448 scalar)", "GFb127/GFb254",
@@ -114,9 +114,14 @@ PROPS = {
     ),
     "C08": dict(
         title="ECDSA (P-256, secp256k1): standard verification, documented nonce derivation",
-        verus=[], kani=[],
+        verus=[("p256_verify", None, "quick"), ("secp256k1_verify", None, "quick")], kani=[],
         cases=["ecdsa_sign", "ecdsa_verify", "ecdsa_verify_highx"],
-        level="exploration",
+        level_text="PublicKey::verify_hash of P-256 and of secp256k1 is proved by Verus, for every public key, signature string of every length and hash string of every length, to return exactly the property's predicate: even length, r and s the big-endian integers of the two halves (surplus leading bytes zero is shown equivalent to the integer being below 2^256), both in [1, n-1], h the big-endian integer of the first 32 hash bytes (all of a shorter hash) reduced mod n, and the x-coordinate of [h/s]G + [r/s]Q exists and reduced mod n equals r. bswap32 (byte reversal) is proved as well. Glue level: scalar arithmetic and decoders, the two-scalar point combination and the compressed point encoder are declared dependencies over uninterpreted functions.",
+        level_note="Signing (RFC 6979 DRBG for P-256, SHA-512 based nonce for secp256k1): stand-in only.",
+        assumptions=["ModInt256 value-level contracts: decode32, decode_reduce, equals, iszero, +, *, / (x/y == x * y^-1 mod n for y != 0), ONE represents 1: declared (spec/ecdsa_scalar_decl.vrs)",
+                     "Point::mul_add_mulgen_vartime(self, u, v) has the x-coordinate of [v]G + [u]self (None at infinity): declared, uninterpreted ecdsa_x / pt_x (C10 stand-in compares it with the plain operations)",
+                     "Point::encode_compressed carries the big-endian x-coordinate in bytes 1..33 (0 for infinity): declared"],
+        not_reached=["sign_hash (nonce derivation, s = (h + x*r)/k)", "mul_add_mulgen_vartime internals"],
     ),
     "C09": dict(
         title="jq255e/jq255s/GLS254 Schnorr signatures and ECDH behave as specified",
